@@ -18,18 +18,21 @@ AllHeaders == IOEnv.GEN_HDR = "all"
 Ids == {0, 1, 2}          \* 0 = attribute missing
 (* where the input ends: inside a tag, after an opened edge, inside weight data of either key,
    inside other data, inside a comment, inside a CDATA section *)
+(* weight texts that a number parser may or may not accept: overflowing exponent, negative zero, hex,
+   explicit sign, digit separator, NaN, infinity, 400 digits, non-ASCII digits *)
+OddNumbers == {"exp", "negzero", "hex", "plus", "sep", "nan", "inf", "long", "uni"}
 TruncPlaces == {"tag", "edge", "data", "dataalt", "dataother", "comment", "cdata"}
 NodeUnits == {<<[t |-> "N", id |-> i, open |-> o]>> : i \in Ids, o \in BOOLEAN}
 EmptyEdgeUnits == {<<[t |-> "E", s |-> a, d |-> b, open |-> FALSE]>> : a \in Ids, b \in Ids}
 DataForms ==
-  {[t |-> "D", key |-> "weight", txt |-> x, w |-> 3] : x \in {"num", "pad", "word", "empty", "child"}}
+  {[t |-> "D", key |-> "weight", txt |-> x, w |-> 3] : x \in {"num", "pad", "word", "empty", "child"} \cup OddNumbers}
   \cup {[t |-> "D", key |-> k, txt |-> "num", w |-> 5] : k \in {"alt", "other", "none"}}
 OpenEdgeUnits ==
   {<<[t |-> "E", s |-> a, d |-> b, open |-> TRUE], [t |-> "/E"]>> : a \in {1, 2}, b \in {1, 2}}
   \cup {<<[t |-> "E", s |-> a, d |-> b, open |-> TRUE], dd, [t |-> "/E"]>> : a \in {1, 2}, b \in {1, 2}, dd \in DataForms}
 OtherUnits == {<<[t |-> "D", key |-> "weight", txt |-> "num", w |-> 7]>>,   \* weight data outside an edge
                <<[t |-> "X"]>>, <<[t |-> "T"]>>, <<[t |-> "C"]>>,
-               <<[t |-> "DUP", id |-> 1]>>, <<[t |-> "ENT"]>>, <<[t |-> "BADEND"]>>}
+               <<[t |-> "DUP", id |-> 1]>>, <<[t |-> "ENT"]>>, <<[t |-> "BADEND"]>>, <<[t |-> "NU"]>>}
               \cup {<<[t |-> "TRUNC", at |-> a]>> : a \in TruncPlaces}
 Units == NodeUnits \cup EmptyEdgeUnits \cup OpenEdgeUnits \cup OtherUnits
 
